@@ -18,7 +18,7 @@ pub fn def() -> PropDef {
     PropDef {
         info: PropInfo {
             id: "C10",
-            rule: "histories: new(None | program) followed by 1-30 operations over {set_program(valid | default-invalid | valid-only-under-another-verifier, with new offsets for the fixed-metadata VM), set_verifier(reference-equivalent | accept-all | reject-all | custom 'first immediate must be even'), register_helper, set_stack_usage_calculator, jit_compile, cranelift_compile, execute, execute_jit, execute_cranelift with one of three packets or - in histories that never load a packet-reading program - the empty packet} on each of the four VM kinds; programs come from a pool of tiny well-defined programs returning distinct values (constants, helper results, a packet byte, the frame size seen by a local function and by a function nested two calls deep (under a stack-usage calculator that depends on its data, on the program and on the pc), the packet length through the fixed VM's offsets). Oracle: abstract VM state machine (loaded program, verifier in force, helpers, what each compiler compiled and under which helpers / calculator, offsets); after EVERY step Ok/Err and the value are compared with the model; after a successful reload compiled code may only be 'not compiled' (Err) or the NEW program's value; a failing set_program / set_verifier must leave every later observation unchanged. Non-trivial = history with a reload after a compile, a failed load on a configured VM, or >= 2 executions; distinct by hash of the history.",
+            rule: "histories: new(None | program) followed by 1-30 operations over {set_program(valid | default-invalid | valid-only-under-another-verifier, with new offsets for the fixed-metadata VM), set_verifier(reference-equivalent | accept-all | reject-all | custom 'first immediate must be even'), register_helper (an id may be bound again, to the same or to another function), set_stack_usage_calculator, jit_compile, cranelift_compile, execute, execute_jit, execute_cranelift with one of three packets or - in histories that never load a packet-reading program - the empty packet} on each of the four VM kinds; programs come from a pool of tiny well-defined programs returning distinct values (constants, helper results, a packet byte, the frame size seen by a local function and by a function nested two calls deep (under a stack-usage calculator that depends on its data, on the program and on the pc), the packet length through the fixed VM's offsets). Oracle: abstract VM state machine (loaded program, verifier in force, helpers, what each compiler compiled and under which helpers / calculator, offsets); after EVERY step Ok/Err and the value are compared with the model; after a successful reload compiled code may only be 'not compiled' (Err) or the NEW program's value; a failing set_program / set_verifier must leave every later observation unchanged. Non-trivial = history with a reload after a compile, a failed load on a configured VM, or >= 2 executions; distinct by hash of the history.",
             assumptions: &["the crate's default verifier is not exported: the 'default' verifier re-installed by set_verifier is the harness's reference verifier (equivalent by C06)", "compilation of programs that the default verifier would reject (loaded under accept-all) is not exercised with Cranelift", "helper ids are always bound to the same function within one history (re-binding an id after a JIT compilation is documented to be unsupported)"],
         },
         run,
